@@ -55,6 +55,11 @@ type c01Case struct {
 	// Upgrade: every replica has an upgrade backend with a consensus upgrade due inside the
 	// history; its migration writes state in EndBlock (before the system-tx validation).
 	Upgrade bool `json:"upgrade,omitempty"`
+	// GovUpgrade: every replica runs the REAL node-local upgrade manager (persistent store);
+	// a governance upgrade proposal is submitted, voted through and closes inside the history.
+	// The closing block is executed after failed rounds, after a restart before commit, and by
+	// one replica whose operator pre-submitted the descriptor.
+	GovUpgrade bool `json:"gov_upgrade,omitempty"`
 	// informational
 	Height  int64    `json:"height,omitempty"`
 	Replica string   `json:"replica,omitempty"`
@@ -82,6 +87,10 @@ type c01Run struct {
 	procs  bool
 	rts    bool
 	upg    bool
+	gov      bool
+	govStage int
+	govID    uint64
+	govClose int64
 	rtStage int
 	cnode  *muxdrv.Validator
 	twins  []*twin
@@ -144,6 +153,11 @@ func (c *c01Run) configs() []muxdrv.ReplicaConfig {
 			cfgs[i].Upgrade = &muxdrv.UpgradeSpec{AtHeight: upgradeHeight(c.seed)}
 		}
 	}
+	if c.gov {
+		for i := range cfgs {
+			cfgs[i].UpgradeManager = true
+		}
+	}
 	return cfgs
 }
 
@@ -172,7 +186,7 @@ type violation struct {
 }
 
 func (c *c01Run) theCase() c01Case {
-	return c01Case{Seed: c.seed, Blocks: c.blocks, NoBackground: !c.bg, Tie: c.tie, Procs: c.procs, Runtimes: c.rts, Upgrade: c.upg}
+	return c01Case{Seed: c.seed, Blocks: c.blocks, NoBackground: !c.bg, Tie: c.tie, Procs: c.procs, Runtimes: c.rts, Upgrade: c.upg, GovUpgrade: c.gov}
 }
 
 func c01GenesisOpts(seed uint64, tie bool) muxdrv.GenesisOpts {
@@ -190,6 +204,9 @@ func (c *c01Run) run() *violation {
 	gopts := c01GenesisOpts(c.seed, c.tie)
 	if c.rts {
 		gopts.EpochInterval = 3
+	}
+	if c.gov {
+		gopts.EpochInterval = 2
 	}
 	c.g, err = muxdrv.NewGenesis(c.seed, gopts)
 	if err != nil {
@@ -622,6 +639,67 @@ func (c *c01Run) newValidatorStep(ref *muxdrv.Replica) *txGen {
 	return nil
 }
 
+// govStep drives the governance-upgrade scenario: submit an upgrade proposal (far-away upgrade
+// epoch, so the upgrade itself never becomes due inside the history), let all validator
+// entities vote yes, and work out the height of the block that closes it.
+func (c *c01Run) govStep(ref *muxdrv.Replica, ss *[]sender) []txGen {
+	g := c.g
+	drop := func(kind string, idx int) {
+		out := (*ss)[:0]
+		for _, x := range *ss {
+			if !(x.kind == kind && x.idx == idx) {
+				out = append(out, x)
+			}
+		}
+		*ss = out
+	}
+	nonce := func(k *muxdrv.Key) (uint64, bool) {
+		acc, err := ref.Account(0, k.Address())
+		if err != nil {
+			return 0, false
+		}
+		return acc.General.Nonce, true
+	}
+	fee := muxdrv.Fee(10, muxdrv.DefaultGas)
+	switch c.govStage {
+	case 0:
+		ep, _, err := ref.Epoch(0)
+		n, ok := nonce(g.Validators[0].Entity)
+		if err != nil || !ok {
+			return nil // nothing committed yet
+		}
+		drop("entity", 0)
+		c.govStage = 1
+		return []txGen{{muxdrv.Sign(g.Validators[0].Entity, muxdrv.TxSubmitUpgrade(n, fee, uint64(ep)+40)), "gov-submit-upgrade", "valid"}}
+	case 1:
+		ps, err := ref.Proposals(0)
+		if err != nil {
+			return nil
+		}
+		for _, pr := range ps {
+			if pr.Content.Upgrade != nil {
+				c.govID = pr.ID
+				c.govClose = int64(pr.ClosesAt) * g.Opts.EpochInterval
+			}
+		}
+		if c.govID == 0 {
+			return nil
+		}
+		var out []txGen
+		for i, v := range g.Validators {
+			n, ok := nonce(v.Entity)
+			if !ok {
+				continue
+			}
+			drop("entity", i)
+			out = append(out, txGen{muxdrv.Sign(v.Entity, muxdrv.TxCastVote(n, fee, c.govID, governance.VoteYes)), "gov-vote-yes", "valid"})
+		}
+		c.govStage = 2
+		return out
+	}
+	return nil
+}
+
 // runtimeStep drives the runtime scenario of a "runtimes" history by one step and removes the
 // senders it uses from the pool of random senders of this block.
 func (c *c01Run) runtimeStep(ref *muxdrv.Replica, ss *[]sender) []txGen {
@@ -727,6 +805,9 @@ func (c *c01Run) block(b int) *violation {
 	if c.rts {
 		gens = append(gens, c.runtimeStep(prop, &ss)...)
 	}
+	if c.gov {
+		gens = append(gens, c.govStep(prop, &ss)...)
+	}
 	for i := 0; i < ntx && len(ss) > 0; i++ {
 		k := r.Intn(len(ss))
 		s := ss[k]
@@ -824,8 +905,38 @@ func (c *c01Run) block(b int) *violation {
 		return c.fail("PrepareProposal returned an empty proposal (execution failed on the proposer)", h, p, desc, nil)
 	}
 	// proposer restarted between prepare and process: loses its cache, must re-execute.
+	closing := c.gov && c.govClose > 0 && h == c.govClose
+	forced := map[int]string{}
+	if closing {
+		// the block that closes the upgrade proposal: every kind of "executed before" must occur
+		k := 0
+		for i := range c.reps {
+			if i == p {
+				continue
+			}
+			switch k {
+			case 0:
+				// this node's operator pre-submitted the descriptor to the local upgrade manager
+				if ps, err := prop.Proposals(0); err == nil {
+					for _, pr := range ps {
+						if pr.ID == c.govID && pr.Content.Upgrade != nil {
+							d := pr.Content.Upgrade.Descriptor
+							_ = c.reps[i].Upgrader().SubmitDescriptor(&d)
+						}
+					}
+				}
+				forced[i] = "replay"
+				c.sum.Count("gov_closing_block", "pre-submitted descriptor + replay: "+c.reps[i].Cfg.Name)
+			case 1:
+				forced[i] = "stale-propose+process"
+			default:
+				forced[i] = "stale-propose+replay"
+			}
+			k++
+		}
+	}
 	propPath := "propose+cached"
-	if prop.Cfg.OnDisk && r.Chance(15) {
+	if prop.Cfg.OnDisk && (r.Chance(15) || closing) {
 		if err := c.restart(p, nil); err != nil {
 			return c.fail("restart of proposer failed: "+err.Error(), h, p, desc, nil)
 		}
@@ -928,6 +1039,9 @@ func (c *c01Run) block(b int) *violation {
 		if i != p {
 			path = pathNames[assign[oi]]
 			oi++
+			if f, ok := forced[i]; ok {
+				path = f
+			}
 		}
 		if v := exec(i, path); v != nil {
 			return v
@@ -985,6 +1099,17 @@ func (c *c01Run) block(b int) *violation {
 	}
 	if c.upg && h == upgradeHeight(c.seed)+1 {
 		c.sum.Count("upgrade_block", fmt.Sprintf("executed on 4 replicas, paths %v", desc.Paths))
+	}
+	if closing {
+		st := "?"
+		if ps, err := c.reps[p].Proposals(0); err == nil {
+			for _, pr := range ps {
+				if pr.ID == c.govID {
+					st = pr.State.String()
+				}
+			}
+		}
+		c.sum.Count("gov_closing_block", fmt.Sprintf("proposal %s; paths %v", st, desc.Paths))
 	}
 	if c.rts {
 		okc := 0
@@ -1198,7 +1323,7 @@ func (c *c01Run) background(i int, stop chan struct{}, wg *sync.WaitGroup) {
 
 // ---------- entry point ----------
 
-func c01Main(seed uint64, out string, blocks, runs int, replay string, noBg bool, tieRuns, tieBlocks, procRuns, rtRuns, upgRuns int) {
+func c01Main(seed uint64, out string, blocks, runs int, replay string, noBg bool, tieRuns, tieBlocks, procRuns, rtRuns, upgRuns, govRuns int) {
 	sum := coqout.NewSummary("one evaluation = one block executed by one replica and compared; distinct_nontrivial = number of distinct (history, height) blocks that carry at least one user transaction, evidence, a non-unanimous vote pattern or an epoch transition (each executed on 4 replicas/paths)")
 	w := coqout.NewWriter(out, c01Header, "run_case", "coutput_eqb", 60)
 	var cases []c01Case
@@ -1224,12 +1349,18 @@ func c01Main(seed uint64, out string, blocks, runs int, replay string, noBg bool
 		for i := 0; i < runs; i++ {
 			cases = append(cases, c01Case{Seed: seed*1000 + uint64(i), Blocks: blocks, NoBackground: noBg, Procs: i < procRuns, Runtimes: i >= runs-rtRuns, Upgrade: i < upgRuns})
 		}
+		for i := 0; i < govRuns; i++ {
+			cases = append(cases, c01Case{Seed: seed*1000 + 700 + uint64(i), Blocks: 12, NoBackground: noBg, GovUpgrade: true})
+		}
 		for i := 0; i < tieRuns; i++ {
 			cases = append(cases, c01Case{Seed: seed*1000 + 500 + uint64(i), Blocks: tieBlocks, NoBackground: noBg, Tie: true, Procs: i < procRuns})
 		}
 	}
 	for _, cs := range cases {
-		run := &c01Run{seed: cs.Seed, blocks: cs.Blocks, bg: !cs.NoBackground, tie: cs.Tie, procs: cs.Procs, rts: cs.Runtimes, upg: cs.Upgrade, sum: sum, w: w}
+		run := &c01Run{seed: cs.Seed, blocks: cs.Blocks, bg: !cs.NoBackground, tie: cs.Tie, procs: cs.Procs, rts: cs.Runtimes, upg: cs.Upgrade, gov: cs.GovUpgrade, sum: sum, w: w}
+		if cs.GovUpgrade {
+			sum.Count("history_variant", "with-governance-upgrade-proposal")
+		}
 		if cs.Upgrade {
 			sum.Count("history_variant", "with-consensus-upgrade")
 		}
